@@ -372,6 +372,9 @@ def r3_2(ctx):
   ctx.check(all("on" in (f.before.get(vm.enclosing_stmt(c)) or ()) for c in runs),
             "VirtualMachine.run_program:filter-dominates-run_bytecode", VM, runs[0].lineno,
             "run_bytecode is reachable before the director's filter is installed", {"runs": len(runs)})
+  if "on" not in (f.before.get(dirs[0]) or ()):
+    ctx.note("errors logged while Director(...) is constructed (invalid-directive, late-directive, "
+             "ignored-type-comment) reach ErrorLog._add with _filter None: no directive can silence them")
   if ctx.tier == "thorough":   # who-may-write over the whole package
     foreign, setters, n = [], [], 0
     for rel in all_py_files(ctx):
